@@ -68,7 +68,7 @@ def gen(seed, tier):
         if rng.random() < 0.5:
             payloads.append({"id": "tcaller", "flavour": "trio", "via": "queued", "steps": [["sleep", rng.choice([0.1, 0.4])], ["execute", "xs"], ["sleep", 0.1], ["return", "none"]]})
         else:
-            payloads.append({"id": "tcaller", "flavour": "threading", "via": "queued", "steps": [["sleep", rng.choice([0.1, 0.4])], ["private-trio", [["execute", "xs"], ["sleep", 0.3]]], ["return", "none"]]})
+            payloads.append({"id": "tcaller", "flavour": "threading", "via": "queued", "steps": [["sleep", rng.choice([0.1, 0.4])], ["private-trio", [[rng.choice(["execute", "execute-in-thread"]), "xs"], ["sleep", 0.3]]], ["return", "none"]]})
     if rng.random() < 0.12:
         # population size is a knob too: a coroutine payload (or the accept loop, through services) hands the
         # runtime a flood of thread payloads that all block - the coroutine side must keep ticking
